@@ -33,12 +33,14 @@ pub mod tokio {
             pub uninterp spec fn outcome(&self) -> Result<T, JoinError>;
             /// prophecy: total this task adds to a shared byte counter it captured (0 if it captured none)
             pub uninterp spec fn rep_c(&self) -> int;
+            /// prophecy: bytes this task reports through its return value (0 when the value carries no count)
+            pub uninterp spec fn rep_v(&self) -> int;
             /// prophecy: total bytes this task hands to the store (sum of the lengths it passes to accepted uploads)
             pub uninterp spec fn handed(&self) -> int;
-            pub open spec fn rec(&self) -> TaskRec<T> { TaskRec { outcome: self.outcome(), rep_c: self.rep_c(), handed: self.handed() } }
+            pub open spec fn rec(&self) -> TaskRec<T> { TaskRec { outcome: self.outcome(), rep_v: self.rep_v(), rep_c: self.rep_c(), handed: self.handed() } }
         }
         /// ghost record of one task: its outcome and its two byte quantities
-        pub struct TaskRec<T> { pub outcome: Result<T, JoinError>, pub rep_c: int, pub handed: int }
+        pub struct TaskRec<T> { pub outcome: Result<T, JoinError>, pub rep_v: int, pub rep_c: int, pub handed: int }
 
         #[verifier::external_body]
         #[verifier::accept_recursive_types(T)]
@@ -53,28 +55,38 @@ pub mod tokio {
             /// record of the task most recently handed back by join_next / try_join_next
             pub uninterp spec fn last(&self) -> TaskRec<T>;
             /// history sums over every task joined from this set since it was created
+            pub uninterp spec fn joined_v(&self) -> int;
             pub uninterp spec fn joined_c(&self) -> int;
             pub uninterp spec fn joined_h(&self) -> int;
+            /// STATED DOMAIN ASSUMPTION (byte-sum bound): the bytes reported by the tasks joined from one set — through their
+            /// return values and through a shared counter together — are non-negative and stay below 2^62.  Both a shared
+            /// atomic's and a local accumulator's freedom from overflow follow from it.
+            pub open spec fn ledger_bounded(&self) -> bool {
+                0 <= self.joined_v() && 0 <= self.joined_c() && self.joined_v() + self.joined_c() <= crate::counter_bound()
+            }
             pub open spec fn joined_step(old_s: &Self, new_s: &Self, x: Result<T, JoinError>) -> bool {
                 &&& old_s.recs().contains(new_s.last()) && new_s.last().outcome == x
                 &&& new_s.recs() == old_s.recs().remove(new_s.last())
+                &&& new_s.joined_v() == old_s.joined_v() + new_s.last().rep_v
                 &&& new_s.joined_c() == old_s.joined_c() + new_s.last().rep_c
+                &&& new_s.ledger_bounded()
                 &&& new_s.joined_h() == old_s.joined_h() + new_s.last().handed
             }
             pub open spec fn unchanged_ledger(old_s: &Self, new_s: &Self) -> bool {
-                new_s.recs() == old_s.recs() && new_s.joined_c() == old_s.joined_c() && new_s.joined_h() == old_s.joined_h()
+                new_s.recs() == old_s.recs() && new_s.joined_v() == old_s.joined_v() && new_s.joined_c() == old_s.joined_c() && new_s.joined_h() == old_s.joined_h()
             }
 
             #[verifier::external_body]
             pub fn new() -> (r: Self)
                 ensures r@ == Multiset::<Result<T, JoinError>>::empty(), r.recs() == Multiset::<TaskRec<T>>::empty(),
-                    r.joined_c() == 0, r.joined_h() == 0,
+                    r.joined_v() == 0, r.joined_c() == 0, r.joined_h() == 0,
             { unimplemented!() }
 
             #[verifier::external_body]
             pub fn spawn(&mut self, task: VxFuture<T>)
                 ensures final(self)@ == old(self)@.insert(task.outcome()),
                     final(self).recs() == old(self).recs().insert(task.rec()),
+                    final(self).joined_v() == old(self).joined_v(),
                     final(self).joined_c() == old(self).joined_c(), final(self).joined_h() == old(self).joined_h(),
             { unimplemented!() }
 
@@ -201,7 +213,7 @@ pub open spec fn shard_task_post(dry_run: bool, val: int, added: int, handed: in
 }
 pub open spec fn shard_rec_ok<V: VxTaskVal>(dry_run: bool, has_counter: bool, t: TaskRec<Result<V>>) -> bool {
     &&& !has_counter ==> t.rep_c == 0
-    &&& t.outcome matches Ok(Ok(v)) ==> shard_task_post(dry_run, v.val_bytes(), t.rep_c, t.handed)
+    &&& t.outcome matches Ok(Ok(v)) ==> v.val_bytes() == t.rep_v && shard_task_post(dry_run, v.val_bytes(), t.rep_c, t.handed)
 }
 /// R16 + capture link for the shard task: the future built at the spawn site runs the task body (verified separately as the
 /// lifted region `upload_and_register_session_shards__task` against `shard_task_post`) with the spawn site's `dry_run`, and
@@ -373,7 +385,7 @@ impl AtomicUsize {
     /// a load is only meaningful as "the total" once every writer has finished: that is a PRECONDITION here
     #[verifier::external_body] pub fn load(&self, o: Ordering) -> (r: usize)
         requires /*@C14*/ self.vx_quiescent(),
-        ensures r == self.vx_final(), r <= counter_bound()
+        ensures r == self.vx_final()
     { unimplemented!() }
 }
 
@@ -439,7 +451,7 @@ impl SessionShardInterface {
             invariant
                 n_shards == shard_list@.len(),
                 dry0 == self.dry_run, hc0 == shard_bytes_uploaded.vx_is_shared(),
-                /*@C14*/ shard_uploads.joined_c() == 0 && shard_uploads.joined_h() == 0,
+                /*@C14*/ shard_uploads.joined_v() == 0 && shard_uploads.joined_c() == 0 && shard_uploads.joined_h() == 0,
                 /*@C14*/ forall|t: TaskRec<_>| #[trigger] shard_uploads.recs().count(t) > 0 ==> shard_rec_ok(dry0, hc0, t),
                 /*@C16*/ n_sp == vx_it.index@,          // one task spawned per shard taken from the list so far
                 /*@C16*/ shard_uploads@.len() == n_sp,
@@ -449,19 +461,17 @@ impl SessionShardInterface {
         let ghost pend0 = shard_uploads@;
         // every consolidated shard has its upload task in the set that is joined below
         assert(/*@C16*/ pend0.len() == n_shards);
-        let ghost mut acc_v: int = 0;      // bytes reported so far through the joined tasks' return values
 //@ loop 2
             invariant /*@C16*/ drained_ok(pend0, shard_uploads@),
                 /*@C14*/ forall|t: TaskRec<_>| #[trigger] shard_uploads.recs().count(t) > 0 ==> shard_rec_ok(dry0, hc0, t),
                 /*@C14*/ !hc0 ==> shard_uploads.joined_c() == 0,
                 // bytes handed to the store by the joined tasks == bytes they reported (value channel + counter channel)
-                /*@C14*/ !dry0 ==> shard_uploads.joined_h() == acc_v + shard_uploads.joined_c(),
+                /*@C14*/ !dry0 ==> shard_uploads.joined_h() == shard_uploads.joined_v() + shard_uploads.joined_c(),
                 // whatever local the function accumulates in holds exactly the value-channel bytes of the joined tasks
-                /*@C14*/ acc_v == shard_bytes_uploaded.vx_local_value(),
+                /*@C14*/ shard_uploads.joined_v() == shard_bytes_uploaded.vx_local_value(),
+                shard_uploads.ledger_bounded(),
             ensures /*@C16*/ shard_uploads@.len() == 0,
             decreases shard_uploads@.len(),
-//@ after `jh??;`
-            proof { acc_v = acc_v + outcome_val(shard_uploads.last().outcome); }
 //@ before `Ok(shard_bytes_uploaded`
         // (c) Ok is returned only with the own task set drained and every result Ok(Ok(_))
         proof { /*@C16*/ vx_mark_shards_stored(self, pend0, shard_uploads@); lemma_drained_all(pend0, shard_uploads@); }
